@@ -167,7 +167,7 @@ pop:
     pkg15.lib.op:
       k: 3.0
 
-eop5:
+eop:
   base: pkg15.lib.eop
   variables:
     g: 5.0
@@ -175,7 +175,7 @@ eop5:
 et:
   base: EdgeTemplate
   operators:
-    - eop5
+    - eop
 
 Sub:
   base: CircuitTemplate
@@ -191,7 +191,8 @@ XREF_CIRCS = {'c1': ('pkg15.lib.Sub', 1.0), 'c2': ('Sub', 3.0), 'c3': ('pkg15.li
 
 def xref_cases(tier, seed):
     """references between YAML files: a bare name is resolved relative to the file that uses it, whatever was
-    referenced before it; all orders of the qualified / bare entries of nodes, edges and circuits"""
+    referenced before it; all orders of the qualified / bare entries of nodes, edges and circuits. The circuit's own
+    edge operator has the NAME of the library's edge operator (and other values): both are used in one circuit."""
     out = []
     for order in itertools.permutations(XREF_NODES):
         for eorder in itertools.permutations(XREF_EDGES):
